@@ -413,10 +413,17 @@ impl<'a> TimeZoneRef<'a> {
                 break;
             }
 
-            unix_leap_time = match unix_time.checked_add(leap_second.correction as i64) {
-                Some(unix_leap_time) => unix_leap_time,
+            let corrected_unix_leap_time = match unix_time.checked_add(leap_second.correction as i64) {
+                Some(corrected_unix_leap_time) => corrected_unix_leap_time,
                 None => return Err(TzError::OutOfRange),
             };
+
+            // A negative leap second only takes effect once the corrected time reaches it
+            if corrected_unix_leap_time < leap_second.unix_leap_time {
+                break;
+            }
+
+            unix_leap_time = corrected_unix_leap_time;
 
             i += 1;
         }
